@@ -1697,6 +1697,14 @@ def run_volume_positions_helper(ctx, reqs, pending):
             impl = ('ok', None if vp is None else {'spacing': rstr(fr(sp)), 'positions': [int(x) for x in vp]})
         except Exception:  # noqa: BLE001
             impl = ('err', 'refused')
+        # different positions at the extreme distance: which of them numpy's (unstable) argsort puts first / last is not
+        # specified (np.argsort([5.5, 5.5, 4.5, 3.5]) = [3 2 1 0] here); the model takes the lexicographic one; not compared
+        uq = sorted(set(pos))
+        dd = [float(np.dot(nrm, q)) for q in uq] if idx >= len(fixed) else []
+        tie = bool(dd) and (dd.count(min(dd)) > 1 or dd.count(max(dd)) > 1)
+        if tie:
+            ctx.case(stream='helper/volume_positions', outcome='tie-at-extreme-not-compared')
+            continue
         ctx.case(stream='helper/volume_positions', outcome=('none' if impl == ('ok', None) else impl[0]),
                  allow_missing=am, hint='none' if hint is None else ('neg' if hint < 0 else 'zero' if hint == 0 else 'pos'))
         reqs.append(('volumePositions', {'pos': [[rstr(fr(x)) for x in p_] for p_ in pos], 'iop': [rstr(F(x)) for x in iop],
